@@ -178,7 +178,9 @@ impl FsCommand {
     }
 
     fn check_can_rename(source: &Path, target: &Path) -> io::Result<()> {
-        if target.to_path_buf().exists() {
+        // Don't follow symbolic links: a dangling link at the target location exists as well
+        // and must not be replaced nor written through.
+        if fs::symlink_metadata(target.to_path_buf()).is_ok() {
             return Err(io::Error::new(
                 ErrorKind::AlreadyExists,
                 format!(
